@@ -22,6 +22,9 @@ func H_C10(nc, ns, nr, recov, enc, entry int) {
 		w.Write([]byte("rec"))
 	})
 	nf := len(k.filts)
+	for _, f := range k.filts {
+		f.replace = false // a replaced pair writes to another recorder (C06's concern); here the client is one recorder
+	}
 	// one panic position per run: before/after each filter passes on, handler before/after writing, or none
 	pos := nondetChoice("panicpos", 2*nf+3)
 	k.panicAt = pos
